@@ -664,6 +664,12 @@ example : (specToks eCfg eReg eCtx 3 [.tok (.inc [116, 48])]).toOption.map specM
     isValueErr (translate { eCfgS with strict := true } eCtx 3 (INCH ++ [116, 48] ++ RR)) = true := by
   decide
 
+/-- hypotheses of `c12_str_unknown_include_marker` on concrete data: `nope` is a word and is not registered; the TEXT
+    `{{>nope}}` renders as `[?nope]` in the string layer -/
+example : WordName eCfgS [110, 111, 112, 101] ∧ lookup [110, 111, 112, 101] (tokReg eReg) = none ∧
+    (translate eCfgS eCtx 3 (INCH ++ [110, 111, 112, 101] ++ RR)).toOption = some ([91, 63, 110, 111, 112, 101, 93], []) :=
+  ⟨WordName_of_bool (by decide), by decide, by decide⟩
+
 /-- the hypotheses of `c12_str_eq_spec_brace_free_values` hold for the template with every kind of construct, and the
     string layer renders `U` `p{{k}}0;` `qv1;` `<x{{zz}}>` `[?nope]` `dflt` -/
 example : eCfgS.strict = false ∧ Grammar eTmpl ∧ GrammarReg eReg ∧ (∀ x ∈ flatten eTmpl, x.wfs eCfgS) ∧
